@@ -66,6 +66,9 @@ func buildQueryOld(decls []string, o *Oblig) string {
 	return sb.String()
 }
 
+// FullCanaries: also try to refute the quantified assumptions (thorough tier).
+var FullCanaries = false
+
 type Job struct {
 	Res *Result
 	O   *Oblig
@@ -91,12 +94,27 @@ func Discharge(results []*Result, timeoutMs int, workers int) {
 				q := BuildQuery(j.Res.Decls, j.O)
 				t := timeoutMs
 				if j.O.Canary {
-					t = timeoutMs / 4
-					if t < 1500 {
-						t = 1500
+					// vacuity guard: the assumptions of this path must be
+					// satisfiable.  Quick tier: the quantifier-free part
+					// (a model exists, cached); thorough tier additionally
+					// tries to refute the full set for a short time.
+					r := solve1(Relax(q), 5000, false)
+					if r.Result == "sat" && !FullCanaries {
+						j.O.Ans = r
+						continue
 					}
+					t = 3000
 				}
 				j.O.Ans = Solve(q, t, false)
+				if !j.O.Canary && j.O.Ans.Result != "unsat" && j.O.Ans.Result != "sat" {
+					// undecided: one retry with a longer limit, bypassing the
+					// cache, before the obligation is reported (a loaded
+					// machine must not turn into an alarm)
+					a2 := SolveC(q, 3*t, false, false)
+					if a2.Result == "unsat" || a2.Result == "sat" {
+						j.O.Ans = a2
+					}
+				}
 				if j.O.Ans.Result != "unsat" && j.O.Ans.Result != "sat" {
 					// candidate model from the relaxed query
 					r := Solve(Relax(q), 5000, !j.O.Canary)
